@@ -393,6 +393,25 @@ def _run_vacuum(case):
         wf = abtem.Waves(arr_b.copy(), energy=energy, sampling=samp, ensemble_axes_metadata=axes_md, metadata=md)
         af = np.asarray(FresnelPropagator().propagate(wf, dz, in_place=False, order=case["order"]).array)
         errb = float(np.abs(ab1.astype(np.complex128) - af.astype(np.complex128)).max()) / (float(np.abs(arr_b).max()) or 1.0)
+        # ... and the SAME wave object after its grid was edited in place (sampling changed): the kernel must follow the
+        # grid the wave has now
+        samp2 = (samp[0] * 1.25, samp[1] * 0.8)
+        arr_c, nm_c = _bandlimited(lead + gpts, samp2, case["frac"], rng_for(case["seed"], "vacuum-regrid"))
+        arr_c = arr_c.astype(np.complex64)
+        wc = abtem.Waves(arr_c.copy(), energy=energy, sampling=samp, ensemble_axes_metadata=axes_md, metadata=md)
+        p3 = FresnelPropagator()
+        _ = p3.get_array(wc, dz, order=case["order"])                        # first use: kernel cached for this very object
+        wc.sampling = samp2                                                  # in-place edit of the grid
+        wc1 = p3.propagate(wc, dz, in_place=False, order=case["order"])
+        wref = abtem.Waves(arr_c.copy(), energy=energy, sampling=samp2, ensemble_axes_metadata=axes_md, metadata=md)
+        aref = np.asarray(FresnelPropagator().propagate(wref, dz, in_place=False, order=case["order"]).array)
+        ac1 = np.asarray(wc1.array)
+        ntc = nm_c > 0 and bool(np.any(arr_c != 0))
+        dvc = float(np.abs(_intensity(ac1) / _intensity(arr_c) - 1).max()) if ntc else 0.0
+        errc = float(np.abs(ac1.astype(np.complex128) - aref.astype(np.complex128)).max()) / (float(np.abs(arr_c).max()) or 1.0)
+        out.append(Res("C04/vacuum/reused-propagator-regridded-wave", dvc <= RTOL_VAC and errc <= RTOL_VAC,
+                       f"wave re-sampled in place {samp} -> {samp2} and propagated through the propagator that had seen it before: "
+                       f"max|I_after/I_before-1|={dvc:.3e}, max|psi_reused-psi_fresh|/max|psi|={errc:.3e} (tol {RTOL_VAC})", ntc))
         out.append(Res("C04/vacuum/reused-propagator-second-wave", dvb <= RTOL_VAC and errb <= RTOL_VAC,
                        f"second wave through the already used propagator (in_place={case['in_place']}): "
                        f"max|I_after/I_before-1|={dvb:.3e}, max|psi_reused-psi_fresh|/max|psi|={errb:.3e} (tol {RTOL_VAC})", ntb))
